@@ -686,8 +686,13 @@ class InterpolatableFunction(ABC):
             self.newInterpolationTable(newMin, newMax, newPoints)
             return
 
+        # A gap that cannot hold the requested number of distinct floats counts as covered
+        resolution = 4 * np.finfo(float).eps * max(
+            abs(newMin), abs(newMax), abs(self._rangeMin), abs(self._rangeMax)
+        )
+
         # what to append to lower end
-        if newMin < self._rangeMin and pointsMin > 0:
+        if self._rangeMin - newMin > pointsMin * resolution and pointsMin > 0:
 
             ## pointsMin equally spaced points, stopping one spacing before the old
             ## lower end. linspace fixes the count; arange can add a point at the old end
@@ -698,7 +703,7 @@ class InterpolatableFunction(ABC):
             appendPointsMin = np.array([])
 
         # what to append to upper end
-        if newMax > self._rangeMax and pointsMax > 0:
+        if newMax - self._rangeMax > pointsMax * resolution and pointsMax > 0:
 
             ## pointsMax equally spaced points above the old upper end, the last one is
             ## exactly newMax. arange can overshoot newMax by one spacing
